@@ -234,15 +234,22 @@ func (r *rxRunner) writePacket(pk *tds.Packet) bool {
 
 // drain reads what is queued without waiting.
 func (r *rxRunner) drain() {
-	for {
+	// NextPackage(wait = false) chooses at random between "nothing ready" and a queued error: only
+	// after several "nothing ready" answers in a row is nothing queued (a queued error then slipped
+	// through with probability 2^-8)
+	idle := 0
+	for idle < 8 {
 		pkg, err := r.ch.NextPackage(context.Background(), false)
 		if err != nil {
 			if c := recvErrClass(err); c != "noready" {
 				r.tr.Emit(Ev{"ev": "RecvErr", "class": c, "text": err.Error()})
+				idle = 0
 				continue
 			}
-			return
+			idle++
+			continue
 		}
+		idle = 0
 		r.recv(pkg)
 	}
 }
@@ -1345,6 +1352,38 @@ func rxMain(args []string) error {
 		}
 	}
 
+	// directed: the response begins with server messages, which arrive alone in a first packet; the
+	// consumer's first call does not wait; the rest follows; the callback fails at the k-th package:
+	// the error carries the messages of the whole call sequence
+	if *nuntil > 0 {
+		for d := 0; d < 12; d++ {
+			tr.Reset(map[string]interface{}{"driver": "until-lazy", "seed": *seed, "d": d})
+			var ps []wPkg
+			for n := 1 + d%2; n > 0; n-- {
+				ps = append(ps, randEED(rng, false))
+			}
+			lead := len(respBytes(ps))
+			ps = append(ps, encRetStat(int32(d)), encMsg(1, 5))
+			if d%3 == 0 {
+				ps = append(ps, randEED(rng, false))
+			}
+			ps = append(ps, encRetStat(int32(d+1)), encDone(tokDone, pick(rng, 0, 0x10), 0, 1))
+			resp := respBytes(ps)
+			r.resp(1, ps)
+			if err := r.runDirect(1, resp, nil, "ref", true, 1, 1); err != nil {
+				return err
+			}
+			script := []string{"cont", "cont", "cont", "cont", "cont", "cont"}
+			script[d%4] = "err"
+			r.lazy = 1
+			err := r.runUntil(1, resp, []int{lead}, true, 1, 1, script, -1)
+			r.lazy = 0
+			if err != nil {
+				return err
+			}
+		}
+	}
+
 	outs := []string{"cont", "cont", "cont", "cont", "stop", "eof", "err"}
 	for i := 0; i < *nuntil; i++ {
 		if r.lates >= 6 {
@@ -1457,6 +1496,9 @@ func rxMain(args []string) error {
 				lost++ // neither order was observed within the bound
 			}
 			mc.Close()
+			if lost >= 5 {
+				break // enough evidence (every further trial would wait for its bound as well)
+			}
 		}
 		tr.Reset(map[string]interface{}{"driver": "errorder", "seed": *seed})
 		tr.Emit(Ev{"ev": "ErrOrder", "n": *nerrorder, "overtaken": overtaken, "lost": lost})
